@@ -435,6 +435,18 @@ func c19Decode(c c19Msg, wire []byte) (*Message, error) {
 // representation (Nexthop.Type computed from the gateway, per-nexthop flag bits derived from labels,
 // the address family filled in by serialize, nil vs empty lists) is not compared.
 func c19Same(a, b Body) (bool, string) {
+	if na, ok := a.(*NexthopRegisterBody); ok {
+		// the frr8.2 safi field cannot be set by users of the package (unexported); an unset safi is
+		// written as SAFI_UNICAST, which is what the decoder then reports: the same message
+		if nb, ok := b.(*NexthopRegisterBody); ok {
+			for i := range na.Nexthops {
+				if i < len(nb.Nexthops) && na.Nexthops[i].safi == 0 && nb.Nexthops[i].safi == uint16(SafiUnicast) {
+					na.Nexthops[i].safi = uint16(SafiUnicast)
+				}
+			}
+		}
+		return c19lib.Equal(a, b)
+	}
 	ra, ok := a.(*IPRouteBody)
 	if !ok {
 		return c19lib.Equal(a, b)
